@@ -846,7 +846,11 @@ func checkPoison(path string, out, snap, fresh reflect.Value) (string, string) {
 				if name == "" {
 					name = fname
 				}
-				return "touched/" + name, d
+				qual := ti.schema
+				if qual == "" {
+					qual = t.Name()
+				}
+				return "touched/" + qual + "." + name, d
 			}
 		}
 		return "", ""
